@@ -1247,6 +1247,15 @@ static void union_initializer(Token **rest, Token *tok, Initializer *init) {
     return;
   }
 
+  // A GNU empty union has no member to initialize.
+  if (!init->ty->members) {
+    if (equal(tok, "{"))
+      struct_initializer1(rest, tok, init);
+    else
+      *rest = tok;
+    return;
+  }
+
   // By default the first named member is initialized.
   init->mem = init->ty->members;
   while (init->mem->next && init->mem->is_bitfield && !init->mem->name)
@@ -1401,6 +1410,8 @@ static Node *create_lvar_init(Initializer *init, Type *ty, InitDesg *desg, Token
 
   if (ty->kind == TY_UNION && !init->expr) {
     Member *mem = init->mem ? init->mem : ty->members;
+    if (!mem)
+      return new_node(ND_NULL_EXPR, tok);
     InitDesg desg2 = {desg, 0, mem};
     return create_lvar_init(init->children[mem->idx], mem->ty, &desg2, tok);
   }
